@@ -852,6 +852,81 @@ def r11_all_rows_answered(repo: Repo, rep, rule_id="R-C05-11"):
         rep.check(R, not bad, fi.site(), fi.fq, "chunk loops cover every row", str(bad[:2]), f"chunk count by floor division: {bad[:2]}")
 
 
+def r12_orientation_free_interior(repo: Repo, rep, rule_id="R-C05-12"):
+    from ..absdom.poly import RF, NotPoly, component_of, to_rf
+    from ..inline import expand_helpers
+    R = rep.rule(rule_id, "interior tests of triangle and parallelogram do not depend on the order of the two spanning directions: exchanging them maps the set of "
+                 "tested quantities onto itself (as rational functions)", floor=2,
+                 why="numerators compared without their determinant change sign with the vertex orientation: a clockwise shape contains nothing")
+    # (class, constructor helper, the two spanning directions as (tuple index, sign))
+    specs = (("problem.domains.domain2D.triangle.Triangle", "_construct_triangle", ((3, 1), (5, -1))),
+             ("problem.domains.domain2D.parallelogram.Parallelogram", "_construct_parallelogram", ((3, 1), (4, 1))))
+    for spec, helper, ((ia, sa_), (ib, sb_)) in specs:
+        ci = repo.cls(spec)
+        fi = ci.methods.get("_contains")
+        if fi is None:
+            raise AnalysisError(f"{spec}._contains vanished")
+        rep.saw(fi)
+
+        def make_atom(swapped):
+            def elt(idx, k):
+                if swapped and idx == ia:
+                    return RF.const(sa_ * sb_) * RF.atom(f"e{ib}.{k}")
+                if swapped and idx == ib:
+                    return RF.const(sa_ * sb_) * RF.atom(f"e{ia}.{k}")
+                return RF.atom(f"e{idx}.{k}")
+
+            def vec(b, k):
+                if isinstance(b, ast.UnaryOp) and isinstance(b.op, ast.USub):
+                    v = vec(b.operand, k)
+                    return None if v is None else RF.const(0) - v
+                if isinstance(b, ast.Subscript) and isinstance(b.slice, ast.Constant) and isinstance(b.slice.value, int) and isinstance(b.value, ast.Call) and (attr_chain(b.value.func) or "").endswith(helper):
+                    return elt(b.slice.value, k)
+                if isinstance(b, ast.BinOp) and isinstance(b.op, ast.Sub) and "as_tensor" in dump(b.left):
+                    o = vec(b.right, k)
+                    return None if o is None else RF.atom(f"q.{k}") - o
+                if isinstance(b, (ast.Attribute, ast.Subscript, ast.Name)) and "as_tensor" in dump(b):
+                    return RF.atom(f"q.{k}")
+                return None
+
+            def atom(n):
+                c = component_of(n)
+                if c is None:
+                    return None
+                k = c[1][1] if isinstance(c[1], tuple) else c[1]
+                return vec(c[0], k)
+            return atom
+        for p in paths(fi.node):
+            if p.ret is RAISE or p.ret is None:
+                continue
+            ret = expand_helpers(repo, ci, p.ret, accept=lambda f: f.name == "_solve_lgs")
+            cmps = [c for c in ast.walk(ret) if isinstance(c, ast.Compare) and all(isinstance(o, (ast.Lt, ast.LtE, ast.Gt, ast.GtE)) for o in c.ops)]
+            if not cmps:
+                rep.undecided(R, fi.site(p.ret_node), fi.fq, "comparisons of barycentric quantities", "none found")
+                continue
+            try:
+                sets = []
+                for swapped in (False, True):
+                    at = make_atom(swapped)
+                    T = []
+                    for c in cmps:
+                        terms = [c.left] + list(c.comparators)
+                        for a, op, b in zip(terms, c.ops, terms[1:]):
+                            ra, rb = to_rf(a, at), to_rf(b, at)
+                            v = (rb - ra) if isinstance(op, (ast.Lt, ast.LtE)) else (ra - rb)
+                            if not any(v == w for w in T):
+                                T.append(v)
+                    sets.append(T)
+            except NotPoly as e:
+                rep.undecided(R, fi.site(p.ret_node), fi.fq, "tested quantities are rational functions of point and direction components", str(e)[:100])
+                continue
+            lost = [v for v in sets[0] if not any(v == w for w in sets[1])]
+            same = not lost and len(sets[0]) == len(sets[1])
+            rep.check(R, same, fi.site(p.ret_node), fi.fq, "exchanging the spanning directions permutes the tested quantities",
+                      f"{len(sets[0])} tested quantities; after the exchange {len(lost)} of them have no counterpart, e.g. {[repr(v)[:80] for v in lost[:1]]}",
+                      f"orientation dependent: {[repr(v)[:60] for v in lost[:1]]}")
+
+
 def _roles_of(expr: ast.AST, roles: Dict[str, Set[str]]) -> Set[str]:
     out = set()
     for n in ast.walk(expr):
@@ -1052,6 +1127,7 @@ def run(repo: Repo, rep):
     r9_radial_sign(repo, rep)
     r10_sides_are_segments(repo, rep)
     r11_all_rows_answered(repo, rep)
+    r12_orientation_free_interior(repo, rep)
     from .c12 import r3_selection  # the name-based selection this property's idioms rely on
     r3_selection(repo, rep)
     from .c13 import r2_r3_mapping  # shape functions are evaluated with each row's own values: given names win over stored defaults
